@@ -174,6 +174,8 @@ def apply(text, opts, kind='fn'):
                     r'if !\2.contains_key(&\3) { \2.insert(\3, \4); }', text, counts, 'R8')
         # R13: `RECV.map(|v| BODY).unwrap_or(D)` -> `match RECV { Some(v) => BODY, None => D }`
         text = rule_R13(text, counts)
+        # R14: `.then_with(|| E)` -> `.then(E)` (std's eager twin; E is pure and total in this code base)
+        text = rule_R14(text, counts)
         # R3
         text = _sub(r'\btake\(([^()]*(?:\([^()]*\))?[^()]*)\)\(([^()]*)\)', r'take_n(\1, \2)', text, counts, 'R3')
         # R4
@@ -337,3 +339,17 @@ def rule_R13(text, counts):
         text = text[:start] + _keep_nl(old, new) + text[ucl + 1:]
         counts['R13'] = counts.get('R13', 0) + 1
         pos = start + len(new)
+
+
+def rule_R14(text, counts):
+    while True:
+        msk = mask(text)
+        m = re.search(r'\.then_with\(\|\|\s*', msk)
+        if not m:
+            return text
+        op = msk.find('(', m.start())
+        cl = match_brace(msk, op, '(', ')')
+        body = text[m.end():cl]
+        new = '.then(' + body + ')'
+        text = text[:m.start()] + _keep_nl(text[m.start():cl + 1], new) + text[cl + 1:]
+        counts['R14'] = counts.get('R14', 0) + 1
